@@ -603,7 +603,7 @@ def rule_concat(E, R):
     if hb:
         Sb = sem.Sem(E, hb, inline=False)
         ext = [x for x in Sb.sites() if x.node.get("k") == "MethodCall" and x.node["m"] == "extend_from_slice" and
-               sem.param_index(Sb, x.node["recv"], x.frame) == 0]
+               sem.param_index(Sb, x.node["recv"], x.frame, through_mut=True) == 0]
         in_loop = False
         for ls, pat, it in sem.for_loops(Sb):
             b_, _, _, ms = sem.provenance(Sb, it, ls.frame)
